@@ -586,6 +586,13 @@ impl CodegenContext {
         }
     }
 
+    fn super_in_import(span: Span) -> Diagnostics {
+        Diagnostic::error()
+            .with_message("'super' cannot be imported or used as the name of an import")
+            .with_labels(vec![span.to_label()])
+            .into()
+    }
+
     fn emit_tokens(&mut self, tokens: &[Token]) -> CoreResult<()> {
         let mut errors = Diagnostics::default();
         for token in tokens {
@@ -925,6 +932,12 @@ impl CodegenContext {
                                     None => star.span,
                                 };
 
+                                if let Some(as_) = &as_ {
+                                    if as_.path.data.contains_super() {
+                                        return Err(Self::super_in_import(as_.path.span));
+                                    }
+                                }
+
                                 let scope_nx = match &as_ {
                                     Some(as_) => {
                                         // Want to import into a new named scope
@@ -961,6 +974,11 @@ impl CodegenContext {
                                         Some(as_) => &as_.path.data,
                                         None => original_path,
                                     };
+                                    // 'super' names a scope, not a symbol of the imported file: exporting it would
+                                    // link the importing scope into itself
+                                    if original_path.contains_super() || target_path.contains_super() {
+                                        return Err(Self::super_in_import(arg.span));
+                                    }
                                     match self.symbols.try_index(import_nx, original_path) {
                                         Some(original_nx) => {
                                             to_export.push((
